@@ -15,8 +15,8 @@ EXPLANATION = (
     "Err - a panic or a non-evaluable construct is a violation - and into_outcome is evaluated on the state each run leaves "
     "behind; (R2) result and effects equal the protocol written from the property text (handshake first and once, callback "
     "asked before anything is processed, Abort / garbage / early close reported as errors, progress threaded through the "
-    "calls, first local failure ends the session with an error); (R3) a declining callback never reaches the store handle; "
-    "(R4) the sync gate (shared with C14.R2); (R5) panic-capable sites of the remaining session plumbing (handle_connection, "
+    "calls, first local failure ends the session with an error, a declining callback never reaches the store handle, the acceptor "
+    "reports the progress of its last step); (R4) the sync gate (shared with C14.R2); (R5) panic-capable sites of the remaining session plumbing (handle_connection, "
     "connect_and_sync) are audited, the codec and session functions being discharged by the evaluated tables. "
     "NOT decided: 'never waits forever' when a future never completes (liveness), QUIC stream behaviour, mirrored counters as "
     "values, interleaving with other actor messages."
